@@ -12,6 +12,7 @@
 #include <atomic>
 #include <coroutine>
 #include <thread>
+#include <chrono>
 #include <mutex>
 
 using namespace cocls;
@@ -342,10 +343,14 @@ static void run_threads(std::istream &in, std::size_t maxlen, std::size_t minlen
         recs[i].start = subs[i]->position();
     }
     std::atomic<bool> closed{false};
+    std::atomic<bool> go{false};
+    std::atomic<int> at_start{0};
     std::vector<std::thread> thr;
     for (std::size_t i = 0; i < modes.size(); ++i) {
         thr.emplace_back([&, i] {
             sub_t &s = *subs[i];
+            at_start.fetch_add(1);
+            while (!go.load()) std::this_thread::yield();
             while (true) {
                 bool was_closed = closed.load();
                 bool b = s.next();
@@ -359,6 +364,8 @@ static void run_threads(std::istream &in, std::size_t maxlen, std::size_t minlen
         });
     }
     // value published at stream position p (1-based) is 1000+p
+    while (at_start.load() != (int)modes.size()) std::this_thread::yield();
+    go.store(true);
     int p = 1;
     while (p <= nvalues) {
         int k = std::min(batch > 1 ? 1 + (p * 7 + 3) % batch : 1, nvalues - p + 1);
@@ -369,7 +376,8 @@ static void run_threads(std::istream &in, std::size_t maxlen, std::size_t minlen
             pub->publish(v.begin(), v.end());
         }
         p += k;
-        if (p % 5 == 0) std::this_thread::yield();
+        if (p % 3 == 0) std::this_thread::yield();
+        if (p % 64 == 0) std::this_thread::sleep_for(std::chrono::microseconds(50));
     }
     closed.store(true);
     pub->close();
